@@ -4,7 +4,7 @@
 From Coq Require Import List NArith ZArith Bool.
 From IdV Require Import Lib.Outcome Core.Timestamp Cred.StatusList Doc.Doc Cred.SdJwt Iota.StateMeta Panic.Sites
   Proofs.TimestampProofs Proofs.StatusListProofs Proofs.SdJwtProofs Proofs.SitesProofs
-  Did.DidParse Did.IotaDid Proofs.DidUrlProofs Proofs.DidCompleteProofs Proofs.DidTotalProofs.
+  Did.DidParse Did.IotaDid Did.DidJwk Proofs.DidUrlProofs Proofs.DidCompleteProofs Proofs.DidTotalProofs Proofs.DidJwkProofs.
 Import ListNotations.
 
 Theorem C05_timestamp_parse_never_panics : forall s, ts_parse s <> Panic.
@@ -58,3 +58,14 @@ Print Assumptions C05_method_digest_accepts_only_packed.
 Theorem C05_method_digest_unguarded_panics : md_unpack false [] = Panic /\ md_unpack false [0; 1; 2]%N = Panic.
 Proof. exact md_unpack_unguarded_panics. Qed.
 Print Assumptions C05_method_digest_unguarded_panics.
+
+(* DIDJwk::jwk() (`expect("did:jwk encodes a valid JWK")`, did_jwk.rs): every construction route - parse / FromStr / TryFrom<&str>,
+   and serde through TryFrom<CoreDID> - hands out only values on which it succeeds, whatever the JWK decoder is; a deserialiser
+   that skipped TryFrom<CoreDID> would hand out a value on which it panics *)
+Theorem C05_didjwk_accessor_never_panics : forall (J : Type) (dj : list N -> option J) s v,
+  (didjwk_parse J dj s = Ok v \/ didjwk_serde J dj s = Ok v) -> didjwk_jwk J dj v <> Panic.
+Proof. exact didjwk_accessor_never_panics. Qed.
+Print Assumptions C05_didjwk_accessor_never_panics.
+Theorem C05_didjwk_transparent_serde_panics : exists s v, didjwk_serde_transparent s = Ok v /\ didjwk_jwk unit (fun _ => None) v = Panic.
+Proof. exact didjwk_transparent_serde_panics. Qed.
+Print Assumptions C05_didjwk_transparent_serde_panics.
